@@ -8,6 +8,7 @@ import (
 
 	"github.com/btcsuite/btcd/btcec/v2"
 	sdk "github.com/cosmos/cosmos-sdk/types"
+	"github.com/ethereum/go-ethereum/common"
 	goatcrypto "github.com/goatnetwork/goat/pkg/crypto"
 	lockingtypes "github.com/goatnetwork/goat/x/locking/types"
 	"verif/harness/internal/tr"
@@ -264,10 +265,39 @@ func (s *lockingStream) genReq(r *tr.Rng) *tr.Op {
 		unlocks = append(unlocks, fmt.Sprintf("%d|%x|%x|%x|%s", s.uid, s.pickTarget(r), r.Bytes(20), s.pickTok(r), amt(r)))
 		cls += "+unlock"
 	}
+	// a jailed validator: now and then every token it holds loses its weight, and a small lock arrives for it (after the jail
+	// time this re-admits it — with no voting power at all, so it must not be ranked)
+	if r.Chance(20) {
+		for _, v := range s.vals[1:] {
+			val, err := s.w.Lock.Validators.Get(s.w.Ctx, v.addr)
+			if err != nil || val.Status != lockingtypes.Downgrade {
+				continue
+			}
+			if r.Chance(50) {
+				for _, c := range val.Locking {
+					for _, t := range s.tokens[1:] {
+						if lockingtypes.TokenDenom(common.BytesToAddress(t)) == c.Denom {
+							weights = append(weights, fmt.Sprintf("%x|0", t))
+						}
+					}
+				}
+				cls += "+jailed-holdings-weightless"
+			}
+			if r.Chance(60) {
+				tk := s.tokens[1+r.Intn(len(s.tokens)-1)]
+				locks = append(locks, fmt.Sprintf("%x|%x|%d", v.addr, tk, 1+r.Intn(1000)))
+				cls += "+dust-lock-to-jailed"
+			}
+			break
+		}
+	}
 	if r.Chance(30) {
 		nc := 1
 		if r.Chance(35) {
 			nc = 2 + r.Intn(2) // several claims in one block, some for the same validator (paid once, then zero)
+		}
+		if r.Chance(8) {
+			nc = 17 + r.Intn(6) // more reward notices than one block hands over (cap 16)
 		}
 		v := s.pickVal(r)
 		for i := 0; i < nc; i++ {
@@ -358,7 +388,7 @@ func (s *lockingStream) genBegin(r *tr.Rng) *tr.Op {
 		}
 		kind := tr.Pick(r, 1, 1, 2, 0, 3)
 		var eh, et int64
-		ageSel := r.Intn(6)
+		ageSel := r.Intn(8)
 		if staleFirst {
 			ageSel = map[bool]int{true: 0, false: 5}[k == 0] // an expired piece first, fresh ones after it
 		}
@@ -375,6 +405,12 @@ func (s *lockingStream) genBegin(r *tr.Rng) *tr.Op {
 		case 3:
 			eh, et = s.height-1, s.now-s.maxAgeD-5e9
 			cls += "/evidence-old-time-only"
+		case 6: // one age exceeded by the smallest step, the other exactly at its limit (still to be punished)
+			eh, et = s.height-s.maxAgeB, s.now-s.maxAgeD-1
+			cls += "/evidence-time+1-blocks-at-limit"
+		case 7:
+			eh, et = s.height-s.maxAgeB-1, s.now-s.maxAgeD
+			cls += "/evidence-blocks+1-time-at-limit"
 		default:
 			eh, et = s.height-1, s.now-1e9
 			cls += "/evidence-fresh"
